@@ -175,6 +175,12 @@ func drvMisc(c *ctx) error {
 			case 1:
 				d -= time.Second
 			}
+			if c.rnd.Intn(10) == 0 { // GPS durations up to the end of the Duration type (292 years): instants after 2262
+				d = time.Duration(math.MaxInt64 - c.rnd.Int63n(int64(15*365*24*time.Hour)))
+				if c.rnd.Intn(3) == 0 {
+					d = time.Duration(math.MaxInt64) - time.Duration(c.pick(0, 1, 999999999, 1000000000))
+				}
+			}
 			if d >= 0 {
 				c.emit(gpsBackEvent(d))
 			}
